@@ -557,3 +557,49 @@ def check(ctx) -> None:
     # P10: nothing a batch leaves behind is applied to the rows of a later batch: no container that outlives the batch is
     # mutated on the pipeline path (shared with C06-B4)
     c06.rule_b4(ctx, ctx.pipeline_reachable(), "C05-P10")
+    rule_p11(ctx)
+
+
+def rule_p11(ctx, rule_id: str = "C05-P11") -> None:
+    """The command line hands every row it read to the Balancer: the rows argument of `rebalance` is the list the reader
+    returned - not a filtered copy of it (a validity pre-check that drops rows makes a row's presence depend on how it
+    is spelled, and the documented behaviour for an unusable first row is to refuse the run)."""
+    ctx.rule(rule_id, "cmd_run.impute passes the rows it read to rebalance unfiltered", 1)
+    prog = ctx.prog
+    imp = prog.func("synrbl.SynCmd.cmd_run.impute")
+    rcalls = [c for c in calls(imp) if isinstance(c.func, ast.Attribute) and c.func.attr == "rebalance" and c.args]
+    ctx.require(rcalls, "impute no longer calls rebalance")
+    for c in rcalls:
+        arg = c.args[0]
+        filt = None
+        seen = set()
+        work = [arg]
+        while work:
+            e = work.pop()
+            if isinstance(e, ast.Name):
+                if e.id in seen:
+                    continue
+                seen.add(e.id)
+                for _st, v, _i in assignments_to(imp, e.id):
+                    work.append(v)
+                # filled by a loop with a conditional append
+                for n in own_nodes(imp.node):
+                    if isinstance(n, ast.Call) and isinstance(n.func, ast.Attribute) and n.func.attr == "append" and isinstance(n.func.value, ast.Name) and n.func.value.id == e.id:
+                        cur = getattr(n, "_parent", None)
+                        while cur is not None and cur is not imp.node:
+                            if isinstance(cur, ast.If):
+                                filt = cur
+                            cur = getattr(cur, "_parent", None)
+            elif isinstance(e, (ast.ListComp, ast.GeneratorExp)):
+                if any(g.ifs for g in e.generators):
+                    filt = e
+                for g in e.generators:
+                    work.append(g.iter)
+            elif isinstance(e, ast.Call):
+                if getattr(e.func, "id", "") in ("list", "tuple") and e.args:
+                    work.append(e.args[0])
+                elif getattr(e.func, "id", "") == "filter":
+                    filt = e
+        ctx.instance(rule_id, "rebalance(%s): rows filtered before the call: %s" % (unparse(arg)[:30], filt is not None), imp.loc(c), ok=filt is None)
+        if filt is not None:
+            ctx.finding(rule_id, "SynCmd.cmd_run.impute:rows-filtered", imp.loc(c), "the rows handed to rebalance are a filtered copy of the rows that were read (%s): whether a reaction gets a result row then depends on a pre-check of its text (atom-map numbers, characters), not on the reaction" % unparse(filt)[:60])
